@@ -46,10 +46,10 @@ static void stat(const std::string & k, long n = 1) { std::printf("#stat %s %ld\
 // ------------------------------------------------------------------------------------------ candidates
 enum RowKind { VALID, UGLY, OFF_SMALL, SUBTHR, N_GOOD,   // accepted by the 3D setters
                OFF_BIG = N_GOOD, NEG, TINYNEG, SUMBAD, NANV, PINFV, NINFV, ZERO, BOUNDARY,
-               SIGNFLIP, ALLNEG, NEGBIG, NANNEG, N_KINDS };
+               SIGNFLIP, ALLNEG, NEGBIG, NANNEG, OFF_MID, N_KINDS };
 static const char * kindName[] = {"valid", "ugly", "off_small", "subthreshold", "off_big", "negative", "tiny_negative",
                                   "sum_not_one", "nan", "pinf", "ninf", "zero_row", "boundary",
-                                  "sign_flipped_entry", "all_negated", "negative_sum_one_big", "nan_and_negative"};
+                                  "sign_flipped_entry", "all_negated", "negative_sum_one_big", "nan_and_negative", "off_by_3e-6"};
 
 static V1 makeRow(Rng & rng, size_t n, int kind) {
     V1 r = verif::dyadicRow(rng, n, 3, rng.coin(1, 3));
@@ -77,6 +77,7 @@ static V1 makeRow(Rng & rng, size_t n, int kind) {
         // sum exactly one with a large negative entry: (-0.5, 1.5)
         case NEGBIG: if (n > 1) { for (auto & x : r) x = 0.0; r[big] = 1.5; r[j] = -0.5; } else r[0] = -1.0; break;
         case NANNEG: r[big] = NaN; if (n > 1) r[j] = -0.25; break;
+        case OFF_MID: r[big] += rng.coin() ? 3e-6 : -3e-6; break;       // three times the documented tolerance
     }
     return r;
 }
